@@ -575,7 +575,11 @@ def _empty_like(x, **k):
 
 @handler("full_like")
 def _full_like(x, v, **k):
-    return T(lift(np.full(A(x).shape, 0.0)) + to_S(A(v)))
+    out = np.empty(A(x).shape, dtype=object)
+    fill = to_S(A(v))
+    for i in np.ndindex(*out.shape):
+        out[i] = fill
+    return T(out)
 
 
 @handler("stack")
@@ -1067,6 +1071,21 @@ class TorchProxy:
     def ones(self, *a, **k):
         k.pop("device", None)
         return self._create(torch.ones, *a, **k)
+
+    def zeros_like(self, x, *a, **k):
+        if isinstance(x, SymTensor):
+            return torch.zeros_like(x, *a, **k)
+        return self._create(torch.zeros_like, x, *a, **k)
+
+    def ones_like(self, x, *a, **k):
+        if isinstance(x, SymTensor):
+            return torch.ones_like(x, *a, **k)
+        return self._create(torch.ones_like, x, *a, **k)
+
+    def empty_like(self, x, *a, **k):
+        if isinstance(x, SymTensor):
+            return torch.empty_like(x, *a, **k)
+        return self._create(torch.zeros_like, x, *a, **k)
 
     def from_numpy(self, a):
         if is_sym(a):
